@@ -900,7 +900,7 @@ def gen_case_c35(seed, tier):
     shape = rng.choice(["file", "file", "file", "multi", "dir"])
     content = "payload-%d" % rng.intn(100000)
     return {"seed": seed, "shape": shape, "content": content, "decl_kind": rng.choice(["correct-sha1", "correct-sha256", "prefixed", "prefixed-space", "near-miss", "wrong-length", "other-output", "two-one-correct", "uppercase"]),
-            "scenario": rng.choice(["build", "build", "cache-corrupt", "cache-corrupt", "cache-corrupt", "cache-corrupt-ab", "cache-corrupt-ab", "cache-stale-decl", "rebuild-after-fail"]), "compress": rng.chance(0.5), "binary": rng.chance(0.2),
+            "scenario": rng.choice(["build", "redeclare-wrong", "redeclare-wrong", "cache-corrupt", "cache-corrupt", "cache-corrupt", "cache-corrupt-ab", "cache-corrupt-ab", "cache-stale-decl", "rebuild-after-fail"]), "compress": rng.chance(0.5), "binary": rng.chance(0.2),
             "corrupt": rng.choice(["flip", "truncate", "swap", "inplace", "inplace"])}
 
 
@@ -1038,6 +1038,17 @@ def exec_case_c35(bindir, case):
                 r4, _ = w.plz(args, subseed(case["seed"], "ab4"))
                 if r4.exit != 0:
                     out.append(("verified-then-rejected", "A/B scenario: success followed by failure on an unchanged tree", None))
+        elif sc == "redeclare-wrong":
+            # the outputs of a verified build stay in plz-out; the declaration is edited to a value the
+            # outputs do not have; the rebuild produces the same bytes. It must fail, and keep failing.
+            wrong = rng.choice([[_hex("sha1", b"not this")], [true.get("sha256", "0" * 64)[:-1] + ("0" if true.get("sha256", "0" * 64)[-1] != "0" else "1")], ["sha1: " + _hex("sha1", b"nor this")]])
+            t2 = c35_target(case["shape"], case["content"], wrong, case["binary"])
+            w.write(c35_spec(t2, cache, w.log, case["compress"]))
+            for k in range(2):
+                res2, _ = w.plz(args, subseed(case["seed"], "redecl%d" % k))
+                if res2.exit == 0:
+                    out.append(("wrong-hash-accepted", "a verified build's outputs are in plz-out; after editing `hashes` to %s (which the outputs do not have) build number %d of the edited tree succeeded" % (wrong, k + 1), None))
+                    break
         elif sc == "cache-stale-decl":
             # change the declaration to a wrong value; the stored artifact must not satisfy it
             t2 = c35_target(case["shape"], case["content"], [_hex("sha1", b"a different expectation")], case["binary"])
